@@ -52,6 +52,12 @@ def gen_crits(rng, ast, n=None, names=None):
     return [(nm, gen_extras(rng, nm, ast)) for nm in names]
 
 
+LONG = {'-na': '-numagents', '-twopl': '-twosidedpreferencelists', '-pc': '-projectclosures', '-stab': '-stability',
+        '-maxsize': '-maximisesize', '-minsize': '-minimisesize', '-gen': '-generous', '-gre': '-greedy',
+        '-mincost': '-minimisecost', '-minsqcost': '-minimisesquaredcost', '-mincostlsb': '-minimisecostloadsumbalanced',
+        '-lmb': '-loadmaxbalanced', '-lsb': '-loadsumbalanced', '-bf': '-bruteforce'}
+
+
 def argv_of(na, twopl, pc, stab, crits, rng=None):
     """Positions strictly increasing in list order (gaps allowed), flags in shuffled order."""
     n = len(crits)
@@ -70,6 +76,9 @@ def argv_of(na, twopl, pc, stab, crits, rng=None):
         flags.append(['-stab'])
     flags.append(['-na', str(na)])
     if rng is not None:
+        for f in flags:
+            if f[0] in LONG and rng.random() < 0.25:
+                f[0] = LONG[f[0]]          # the documented long spelling of the option
         rng.shuffle(flags)
     return [x for f in flags for x in f]
 
